@@ -194,4 +194,55 @@ theorem castF_int_exact {p : GProg} {f m : Nat} {n : Int} {t : LType} {bits : Na
   cases h
   rfl
 
+/-! ### the order of definitions in a file does not matter -/
+
+/-- A lookup in a map with unique keys does not depend on the order of its entries. -/
+theorem alookup_perm {α β : Type} [DecidableEq α] {l₁ l₂ : List (α × β)} (hp : l₁.Perm l₂)
+    (hn : (l₁.map (·.1)).Nodup) (k : α) : alookup k l₁ = alookup k l₂ := by
+  induction hp with
+  | nil => rfl
+  | cons x _ ih =>
+    obtain ⟨k', v⟩ := x
+    simp only [List.map_cons, List.nodup_cons] at hn
+    simp only [alookup]
+    split
+    · rfl
+    · exact ih hn.2
+  | swap x y l =>
+    obtain ⟨kx, vx⟩ := x
+    obtain ⟨ky, vy⟩ := y
+    simp only [List.map_cons, List.nodup_cons, List.mem_cons, not_or] at hn
+    simp only [alookup]
+    by_cases h1 : ky = k
+    · by_cases h2 : kx = k
+      · exact absurd (h1.trans h2.symm) hn.1.1
+      · simp [h1, h2]
+    · by_cases h2 : kx = k
+      · simp [h1, h2]
+      · simp [h1, h2]
+  | trans h₁ _ ih₁ ih₂ =>
+    rw [ih₁ hn]
+    exact ih₂ ((h₁.map (·.1)).nodup_iff.1 hn)
+
+/-- Resolution sees a program only through its lookups: two programs with the same lookups
+(in particular: the same definitions listed in a different order) resolve every name alike. -/
+theorem resolveType_congr {p q : GProg}
+    (ht : ∀ m n, lookupType p m n = lookupType q m n)
+    (hi : ∀ m n, lookupInclude p m n = lookupInclude q m n) :
+    ∀ m n, resolveType p m n = resolveType q m n := by
+  intro m n
+  unfold resolveType
+  generalize n.length + 1 = f
+  induction f generalizing m n with
+  | zero => rfl
+  | succ f ih =>
+    simp only [resolveNameF, ht, hi]
+    split
+    · rfl
+    · split
+      · rfl
+      · split
+        · rfl
+        · exact ih _ _
+
 end ThriftVerif.Compile
